@@ -8,7 +8,10 @@ chain    a generated Result and a chain of where / where_best / where_fin steps.
          read back through the public API and become the model input of the next step, so each step is judged
          on its own (no accumulated model drift).
 learners raw_learners (and, on unambiguous inputs, raw_contrast) against naive per-evaluation progressive /
-         windowed / final means, compared as multisets per (learner level, x) with tolerance 1e-9.
+         windowed / final means, compared as multisets per (learner level, x) with tolerance 1e-9. The call is made
+         on a fresh Result or on the object returned by a short chain (where; where_fin(None,l,p) with the very l and p
+         raw_learners is then asked for; where_fin -> where_best; where_fin with other arguments); some cases hold NaN
+         rewards, which must propagate into the averages.
 mavg     moving_average against the textbook definitions (cumulative mean, trailing window, weighted variants,
          'exp' = pandas' ewm(span, adjust=True).mean() as the code comment documents).
 
@@ -50,6 +53,7 @@ ASSUMPTIONS = [
     "Result.where is only driven with Table queries outside the Table defects listed in DESIGN.md section 5 / C17 (single keyword, no '!in', no duplicate values in 'in' lists, no insert after index)",
     "raw_contrast is only judged when every (p, contrasted level) holds at most one evaluation and x is 'index' or an id column (the code documents that it assumes this)",
     "where_best is always given p explicitly (p=None is documented as defaulting to full_p but is outside this property's statement)",
+    "NaN rewards (learners sub-check only) must propagate into every progressive / final average whose window holds them; they are not combined with a trailing window (1 < span) over x='index', where the running-sum implementation stays NaN after the value has left the window, nor with where_best (ranking NaN means is undefined); +-inf rewards are not generated",
     "moving_average: span is None or an int >= 1, explicit weights are positive (0.1..10), 'exp' needs an int span; values within +-100",
 ]
 
@@ -91,6 +95,11 @@ class Model:
         es = {t[0] for t in self.evals}; ls = {t[1] for t in self.evals}; vs = {t[2] for t in self.evals}
         return es == set(self.env) and ls == set(self.lrn) and vs == set(self.val)
 
+NAN = float("nan")      # one object for every undefined reward, so that row lists compare equal by identity
+
+def nan1(v):
+    return NAN if isinstance(v, float) and v != v else v
+
 def model_of_case(case):
     env = {i: dict(zip(case["env_cols"], r)) for i, r in zip(case["env_ids"], case["env_rows"])}
     lrn = {i: dict(zip(case["lrn_cols"], r)) for i, r in zip(case["lrn_ids"], case["lrn_rows"])}
@@ -99,7 +108,7 @@ def model_of_case(case):
     for ei, li, vi, ys in case["evals"]:
         t = (case["env_ids"][ei], case["lrn_ids"][li], case["val_ids"][vi])
         if ys:
-            evals[t] = [{"index": k + 1, "reward": y, "tag": f"{t[0]}.{t[1]}.{t[2]}.{k + 1}"} for k, y in enumerate(ys)]
+            evals[t] = [{"index": k + 1, "reward": nan1(y), "tag": f"{t[0]}.{t[1]}.{t[2]}.{k + 1}"} for k, y in enumerate(ys)]
     return Model(env, lrn, val, evals, case["env_cols"], case["lrn_cols"], case["val_cols"], ("index", "reward", "tag"))
 
 def norm(v):
@@ -126,7 +135,7 @@ def read_result(res, what):
     evals = defaultdict(list)
     for d in res.interactions.to_dicts():
         t = (d["environment_id"], d["learner_id"], d["evaluator_id"])
-        evals[t].append({k: v for k, v in d.items() if k not in ID_COLS})
+        evals[t].append({k: nan1(v) for k, v in d.items() if k not in ID_COLS})
     n_rows = len(res.interactions)
     require(n_rows == sum(len(r) for r in evals.values()), f"{what}: len(interactions) disagrees with its rows")
     for t in evals:
@@ -494,49 +503,62 @@ def apply_where(res, cur, op, prefix):
             got={t: len(r) for t, r in out.evals.items()}, want={t: len(r) for t, r in want.items()})
     return new, out
 
+def apply_step(res, cur, op, step):
+    """one where / where_fin / where_best call on the real Result, judged against the tables read before it.
+    Returns (new Result, its tables as a Model) or None when the step names a column that does not exist."""
+    kind = op[0]
+    if kind == "where":
+        return apply_where(res, cur, op, f"step {step}")
+    if kind == "fin":
+        _, n, l, p = op
+        n, l, p = fin_args({"n": n, "l": l, "p": p})
+        if any(c not in known_cols(cur) for c in spec_cols(l) + spec_cols(p)):
+            return None
+        what = f"step {step} where_fin(n={n!r}, l={l!r}, p={p!r})"
+        new = res.where_fin(n, l, p)
+        out = read_result(new, what)
+        check_fin(cur, out, n, l, p, what)
+        return new, out
+    _, l, p, n, full_l, full_p = op
+    _, l, p = fin_args({"n": None, "l": l, "p": p})
+    _, full_l, full_p = fin_args({"n": None, "l": full_l, "p": full_p})
+    if any(c not in known_cols(cur) for c in spec_cols(l) + spec_cols(p) + spec_cols(full_l) + spec_cols(full_p)):
+        return None
+    what = f"step {step} where_best(l={l!r}, p={p!r}, n={n!r}, full_l={full_l!r}, full_p={full_p!r})"
+    new = res.where_best(l, p, "reward", n, full_l, full_p)
+    out = read_result(new, what)
+    fin, score = best_model(cur, l, p, n, full_l, full_p)
+    require_subresult(out, cur, what, prefix=True, both_ways=True)
+    require(all(len(out.evals[t]) == len(cur.evals[t]) for t in out.evals), f"{what}: an evaluation was shortened")
+    require(set(out.evals) <= set(fin), f"{what}: kept an evaluation outside the finished (full_l, full_p) groups",
+            extra=sorted(set(out.evals) - set(fin)))
+    for key, cands in score.items():
+        kept = [flv for flv, (mu, ts) in cands.items() if any(t in out.evals for t in ts)]
+        require(len(kept) == 1, f"{what}: (p,l)={key} must keep exactly one full_l, kept {kept}", candidates={k: v[0] for k, v in cands.items()})
+        mu, ts = cands[kept[0]]
+        require(all(t in out.evals for t in ts), f"{what}: (p,l)={key} kept only part of the winning full_l's evaluations")
+        best = max(v[0] for v in cands.values())
+        require(close(mu, best), f"{what}: (p,l)={key} kept full_l={kept[0]!r} with mean {mu}, the best is {best}",
+                candidates={k: v[0] for k, v in cands.items()})
+    return new, out
+
+def run_steps(res, cur, ops):
+    """interpret a list of steps; after every step the input must be unchanged and the output becomes the next input"""
+    for step, op in enumerate(ops):
+        if not cur.evals:
+            break
+        r = apply_step(res, cur, op, step)
+        if r is None:
+            continue
+        again = read_result(res, f"input of step {step} after the call")
+        require_same_model(again, cur, f"step {step} ({op[0]}) changed the Result it was called on")
+        res, cur = r
+    return res, cur
+
 def run_chain(case):
     res, m0 = build(case)
     cur = read_result(res, "constructed Result")
-    for step, op in enumerate(case["ops"]):
-        kind = op[0]
-        if not cur.evals:
-            break
-        if kind == "where":
-            new, out = apply_where(res, cur, op, f"step {step}")
-        elif kind == "fin":
-            _, n, l, p = op
-            n, l, p = fin_args({"n": n, "l": l, "p": p})
-            if any(c not in known_cols(cur) for c in spec_cols(l) + spec_cols(p)):
-                continue
-            what = f"step {step} where_fin(n={n!r}, l={l!r}, p={p!r})"
-            new = res.where_fin(n, l, p)
-            out = read_result(new, what)
-            check_fin(cur, out, n, l, p, what)
-        else:
-            _, l, p, n, full_l, full_p = op
-            _, l, p = fin_args({"n": None, "l": l, "p": p})
-            _, full_l, full_p = fin_args({"n": None, "l": full_l, "p": full_p})
-            if any(c not in known_cols(cur) for c in spec_cols(l) + spec_cols(p) + spec_cols(full_l) + spec_cols(full_p)):
-                continue
-            what = f"step {step} where_best(l={l!r}, p={p!r}, n={n!r}, full_l={full_l!r}, full_p={full_p!r})"
-            new = res.where_best(l, p, "reward", n, full_l, full_p)
-            out = read_result(new, what)
-            fin, score = best_model(cur, l, p, n, full_l, full_p)
-            require_subresult(out, cur, what, prefix=True, both_ways=True)
-            require(all(len(out.evals[t]) == len(cur.evals[t]) for t in out.evals), f"{what}: an evaluation was shortened")
-            require(set(out.evals) <= set(fin), f"{what}: kept an evaluation outside the finished (full_l, full_p) groups",
-                    extra=sorted(set(out.evals) - set(fin)))
-            for key, cands in score.items():
-                kept = [flv for flv, (mu, ts) in cands.items() if any(t in out.evals for t in ts)]
-                require(len(kept) == 1, f"{what}: (p,l)={key} must keep exactly one full_l, kept {kept}", candidates={k: v[0] for k, v in cands.items()})
-                mu, ts = cands[kept[0]]
-                require(all(t in out.evals for t in ts), f"{what}: (p,l)={key} kept only part of the winning full_l's evaluations")
-                best = max(v[0] for v in cands.values())
-                require(close(mu, best), f"{what}: (p,l)={key} kept full_l={kept[0]!r} with mean {mu}, the best is {best}",
-                        candidates={k: v[0] for k, v in cands.items()})
-        again = read_result(res, f"input of step {step} after the call")
-        require_same_model(again, cur, f"step {step} ({kind}) changed the Result it was called on")
-        res, cur = new, out
+    run_steps(res, cur, case["ops"])
 
 def draw_where(draw):
     return ["where", draw(st.integers(0, 11)), draw(st.sampled_from(["=", "=", "!=", "in", "in", "<", "<=", ">", ">="])),
@@ -613,16 +635,40 @@ def ref_moving_average(values, span=None, weights=None):
         out.append(math.fsum(values[i] * w[i] for i in range(lo, t + 1)) / math.fsum(w[lo:t + 1]))
     return out
 
+def nan_sorted(vals):
+    """sorted with the undefined values last (NaN breaks the ordering sorted() relies on)"""
+    vals = list(vals)
+    return sorted(v for v in vals if v == v) + [v for v in vals if v != v]
+
 def final_value(ys, span):
     tail = ys if span is None else ys[-span:]
     return math.fsum(tail) / len(tail)
+
+def pre_ops(q):
+    """steps applied before raw_learners: a single where descriptor (older replays) or a list of steps"""
+    pre = q.get("pre") or []
+    return [pre] if pre and isinstance(pre[0], str) else list(pre)
+
+def model_fin(m, n, l, p):
+    """model of where_fin used for class labels only (pair, length, pair again) - never as an oracle"""
+    evals = dict(m.evals)
+    def pair(ev):
+        if l is None: return ev
+        _, groups, ok = complete_groups(m, list(ev), l, p)
+        return {t: ev[t] for pv in ok for t in groups[pv]}
+    evals = pair(evals)
+    if n == "min" and evals:
+        k = min(len(r) for r in evals.values()); evals = {t: r[:k] for t, r in evals.items()}
+    elif isinstance(n, int):
+        evals = pair({t: r[:n] for t, r in evals.items() if len(r) >= n})
+    return evals
 
 def run_learners(case):
     res, m = build(case)
     cur = read_result(res, "constructed Result")
     q = case["q"]
-    if q.get("pre"):          # the tables become views of the original ones
-        res, cur = apply_where(res, cur, q["pre"], "before raw_learners:")
+    if q.get("pre"):          # raw_learners is called on the very object the last step returned (tables are views then)
+        res, cur = run_steps(res, cur, pre_ops(q))
         if not cur.evals: return
     _, l, p = fin_args({"n": None, "l": q["l"], "p": q["p"]})
     x = list(q["x"]) if isinstance(q["x"], (list, tuple)) else q["x"]
@@ -690,7 +736,7 @@ def run_learners(case):
                 require(len(got) == 1 and isinstance(got[0], float) and math.isnan(got[0]),
                         f"{what}: level {name!r} has no evaluation at x={xv!r}, expected the [nan] placeholder", got=got)
                 continue
-            a, b = sorted(got), sorted(exp)
+            a, b = nan_sorted(got), nan_sorted(exp)
             require(len(a) == len(b) and all(close(u, v) for u, v in zip(a, b)),
                     f"{what}: level {name!r} x={xv!r}: values differ from the naive per-evaluation averages", got=a, want=b,
                     evaluations={str(t): [r["reward"] for r in cur.evals[t]] for t in keep if cur.spec(l, t) == lv})
@@ -732,7 +778,8 @@ def run_contrast(res, cur, q, _):
     xs, ys = list(table["x"]), list(table[cols[1]])
     require(xs == sorted(want), f"{what}: x values differ", got=xs, want=sorted(want))
     for xv, got in zip(xs, ys):
-        a, b = sorted(got), sorted(want[xv])
+        key = lambda uv: tuple((1, 0.0) if w != w else (0, w) for w in uv)
+        a, b = sorted(got, key=key), sorted(want[xv], key=key)
         require(len(a) == len(b) and all(close(u[0], v[0]) and close(u[1], v[1]) for u, v in zip(a, b)),
                 f"{what}: pairs at x={xv!r} differ from the naive computation", got=a, want=b)
 
@@ -750,22 +797,57 @@ def learner_cases(draw, tier):
         k = draw(st.sampled_from([0, 0, 1, 2]))
         x = draw(st.sampled_from(cands)) if k == 0 else list(draw(st.permutations(cands)))[:k]
     span = draw(st.sampled_from([None, None, 1, 2, 3, 4, 9]))
+    # steps before raw_learners; the "same" kinds pair on exactly the l and p raw_learners is then asked for, without n,
+    # so a Result that remembers having been paired must still be cut to the shortest evaluation for x='index'
+    pre_kind = draw(st.sampled_from(["none", "none", "none", "fin-same", "where", "fin-same", "fin-other", "fin-same-best", "none"]))
+    if p is None and pre_kind.startswith("fin-same"): pre_kind = "where"
+    pre = []
+    if pre_kind == "where":
+        pre = [draw_where(draw)]
+    elif pre_kind == "fin-other":
+        l2, p2 = draw_lp(draw, case)
+        n2 = draw_n(draw)
+        if n2 == "k": n2 = draw(st.sampled_from(range(1, 10)))
+        if l2 is None and n2 is None: n2 = "min"
+        pre = [["fin", n2, l2, p2]]
+    elif pre_kind.startswith("fin-same"):
+        if chance(draw, 3, 4): x = "index"
+        pre = [["fin", None, l, p]]
+        if pre_kind == "fin-same-best":
+            pre.append(["best", draw(st.sampled_from([*case["lrn_cols"], "learner_id"])), draw(st.sampled_from([*case["env_cols"], "environment_id"])),
+                        draw(st.sampled_from([None, 2])), "learner_id", "environment_id"])
     case["q"] = {"l": l, "p": p, "x": x, "span": span}
-    if chance(draw, 1, 4):
-        case["q"]["pre"] = draw_where(draw)
+    if pre: case["q"]["pre"] = pre
     if chance(draw, 1, 4):
         case["q"]["contrast"] = {"a": draw(st.sampled_from(range(4))), "b": draw(st.sampled_from(range(4))), "x": draw(st.sampled_from(["index", "environment_id"]))}
+    # undefined rewards: NaN must propagate into every average whose window holds it. Not combined with a real trailing
+    # window over x='index' (the running-sum implementation stays NaN after the value left the window, see ASSUMPTIONS)
+    # nor with where_best (ranking NaN means is not defined)
+    index_axis = x == "index" or case["q"].get("contrast", {}).get("x") == "index"
+    if chance(draw, 1, 4) and (span in (None, 1) or not index_axis) and pre_kind != "fin-same-best":
+        slots = [(i, k) for i, e in enumerate(case["evals"]) for k in range(len(e[3]))]
+        for _ in range(draw(st.sampled_from([1, 2, 3]))):
+            i, k = slots[draw(st.integers(0, len(slots) - 1))]
+            case["evals"][i][3][k] = float("nan")
     return case
+
+def has_nan(case):
+    return any(isinstance(y, float) and y != y for e in case["evals"] for y in e[3])
 
 def learners_profile(case):
     m = model_of_case(case)
     q = case["q"]
-    if q.get("pre"):
-        col, opname, arg, _ = resolve_where(m, q["pre"])
-        m.evals = where_model(m, col, opname, arg)
+    for op in pre_ops(q):      # labels only: where and where_fin are modelled, where_best is not
+        if op[0] == "where":
+            col, opname, arg, _ = resolve_where(m, op)
+            m.evals = where_model(m, col, opname, arg)
+        elif op[0] == "fin":
+            n2, l2, p2 = fin_args({"n": op[1], "l": op[2], "p": op[3]})
+            if all(c in known_cols(m) for c in spec_cols(l2) + spec_cols(p2)):
+                m.evals = model_fin(m, n2, l2, p2)
     _, l, p = fin_args({"n": None, "l": q["l"], "p": q["p"]})
     lens = {t: len(r) for t, r in m.evals.items()}
-    if p is None:
+    if p is None or any(c not in known_cols(m) for c in spec_cols(l) + spec_cols(p)):
         return {"keep": len(lens), "groups": len(lens), "dropped": 0, "ragged": len(set(lens.values())) > 1}
     _, groups, ok = complete_groups(m, list(lens), l, p)
     keep = [t for pv in ok for t in groups[pv]]
@@ -785,7 +867,16 @@ def learners_classes(case):
     if f["dropped"] and f["keep"]: out.append("some-groups-dropped")
     if f["ragged"]: out.append("kept-evaluations-ragged")
     if "contrast" in q: out.append("with-raw_contrast")
-    if "pre" in q: out.append("after-where-step")
+    kinds = [op[0] for op in pre_ops(q)]
+    if "where" in kinds: out.append("after-where-step")
+    if "fin" in kinds:
+        same = any(op[0] == "fin" and op[1] is None and op[2] == q["l"] and op[3] == q["p"] for op in pre_ops(q))
+        out.append("after-where_fin(None,same l,same p)" if same else "after-where_fin(other)")
+        if same and f["ragged"] and q["x"] == "index" and f["keep"]: out.append("same-lp-where_fin-then-index-on-ragged")
+    if "best" in kinds: out.append("after-where_best")
+    if has_nan(case):
+        out.append("nan-rewards")
+        if q["x"] != "index" and q["span"] != 1: out.append("nan-rewards-final-average")
     return out
 
 # ====================================================================================== moving_average
@@ -846,7 +937,7 @@ SUBCHECKS = [
         what="chains of where / where_best / where_fin; after every step the tables are re-read and the step is judged against a row-by-row model (where: filter; where_best: one best full_l per (p,l); where_fin: the fin oracle)"),
     Sub(name="learners", run=run_learners, strategy=learner_cases, nontrivial=learners_nontrivial, classes=learners_classes, classify=classify,
         quick=2000, thorough=80000, quick_shards=2,
-        what="raw_learners(x,l,p,span) (+ raw_contrast on unambiguous inputs) vs naive per-evaluation progressive / windowed / final means, multisets per (level,x), tol 1e-9"),
+        what="raw_learners(x,l,p,span) (+ raw_contrast on unambiguous inputs), on a fresh Result or behind where / where_fin(None,same l,p) / where_best steps, some NaN rewards, vs naive per-evaluation progressive / windowed / final means, multisets per (level,x), tol 1e-9"),
     Sub(name="mavg", run=run_mavg, strategy=mavg_cases, nontrivial=mavg_nontrivial, classes=mavg_classes,
         quick=3000, thorough=150000, quick_shards=1,
         what="moving_average(values, span, weights) vs textbook cumulative / trailing-window / weighted / ewm(adjust=True) definitions, tol 1e-9"),
